@@ -438,6 +438,9 @@ fn show_evt(e: &Event<qverif::sim::E>) -> String {
         Event::DeliverAction { target, message, .. } => format!("deliver:{target}:{}", show_msg(message)),
         Event::AwaitAction { awaiter, targets } => format!("await:{awaiter}:{}", show_nats(targets)),
         Event::ProcessResults { awaiter, results } => format!("results:{awaiter}:{}", show_results(results)),
+        // `Event::ProcessExited { process_id }` (variant `exitReports`, notes/C14-fixes/01), recognised
+        // through its Debug form so that the harness builds against trees with and without it
+        e if exited_pid(e).is_some() => format!("exited:{}", exited_pid(e).unwrap()),
         Event::ResultResponse { request_id, result, .. } => format!(
             "resp:{request_id}:{}",
             match result {
@@ -920,6 +923,46 @@ pub fn start(sc: &Scenario, n: usize, quantum: Option<usize>) -> Result<(Sim, u6
         Ok(None) => Err("no code".to_string()),
         Err(e) => Err(format!("{e:?}").chars().take(300).collect()),
     }
+}
+
+/// `Event::ProcessExited { process_id }` by its Debug form (None for every other event)
+pub fn exited_pid(e: &Event<qverif::sim::E>) -> Option<usize> {
+    if matches!(
+        e,
+        Event::SpawnAction { .. } | Event::DeliverAction { .. } | Event::ProcessResults { .. } | Event::AwaitAction { .. } | Event::ResultResponse { .. }
+    ) {
+        return None;
+    }
+    let d = format!("{e:?}");
+    let rest = d.strip_prefix("ProcessExited")?;
+    let digits: String = rest.chars().filter(|c| c.is_ascii_digit()).collect();
+    digits.parse().ok()
+}
+
+/// Does the runtime this harness is linked against report terminated processes
+/// (`Event::ProcessExited`)?  Probed by running a program whose child terminates.
+pub fn detect_exit_reports() -> bool {
+    let sc = Scenario {
+        kind: "probe".into(),
+        scripts: vec![vec![Act::Spawn { f: 1, pass: vec![] }, Act::Select(vec![Src::Proc(1)])], vec![]],
+        terminates: true,
+        confluent: true,
+    };
+    let mut sim = Sim::new(1, None, qverif::run::builtins(), true).with_repl(HashMap::new());
+    let Ok(Some(req)) = sim.submit(&sc.source()) else { return false };
+    sim.run_fair(200, |s| s.poll_result(req).is_some());
+    sim.chans.iter().any(|ch| ch.chan.lock().unwrap().evt_log.iter().any(|(_, e)| exited_pid(e).is_some()))
+}
+
+/// Tell the model which variant of the runtime it has to mirror (once, after `Model::spawn`).
+pub fn configure_model(model: &mut Model) -> Vec<String> {
+    let mut on = vec![];
+    if detect_exit_reports() {
+        let ans = model.ask("(cfg exit-reports on)");
+        assert_eq!(ans, "ok", "model does not know the variant exit-reports");
+        on.push("exit-reports".to_string());
+    }
+    on
 }
 
 pub fn init_line(sc: &Scenario, n: usize, req: u64) -> String {
